@@ -361,7 +361,7 @@ pub fn pack_c04<P: SimPrefix>(ctx: &mut Ctx, len: usize, is_empty: bool, t: &Tru
 
 // ------------------------------------------------------------------------------------------- C09
 
-pub fn pack_c09_map<P: SimPrefix>(ctx: &mut Ctx, cfg: &Cfg, real: &PrefixMap<P, Val>, t: &Truth) -> R {
+pub fn pack_c09_map<P: SimPrefix>(ctx: &mut Ctx, cfg: &Cfg, real: &mut PrefixMap<P, Val>, t: &Truth) -> R {
     let salt = ctx.salt ^ ctx.step as u64;
     let cap = 2 * t.nodes.len() + 8;
     for q in probes::<P>(cfg, &t.ents) {
@@ -401,6 +401,10 @@ pub fn pack_c09_map<P: SimPrefix>(ctx: &mut Ctx, cfg: &Cfg, real: &PrefixMap<P, 
         chk!(ctx, "C09", key_eq(g, first), "get_spm_prefix", "get_spm_prefix({q}) = {:?}, expected {:?}; stored {:?}", g, first, t.ents);
         let g = ctx.obs("C09", "get_lpm", || real.get_lpm(&p).map(|(pp, v)| (pp.raw(), v.payload)))?;
         chk!(ctx, "C09", ent_eq(g, chain.last().copied()), "lpm-is-last-of-cover", "get_lpm({q}) = {:?} but the cover chain ends with {:?}", g, chain.last());
+        let g = ctx.obs("C09", "get_lpm_prefix", || real.get_lpm_prefix(&p).map(|pp| pp.raw()))?;
+        chk!(ctx, "C09", key_eq(g, chain.last().copied()), "lpm-is-last-of-cover:get_lpm_prefix", "get_lpm_prefix({q}) = {:?} but the cover chain ends with {:?}", g, chain.last());
+        let g = ctx.obs("C09", "get_lpm_mut", || real.get_lpm_mut(&p).map(|(pp, v)| (pp.raw(), v.payload)))?;
+        chk!(ctx, "C09", ent_eq(g, chain.last().copied()), "lpm-is-last-of-cover:get_lpm_mut", "get_lpm_mut({q}) = {:?} but the cover chain ends with {:?}", g, chain.last());
     }
     Ok(())
 }
@@ -419,6 +423,8 @@ pub fn pack_c09_set<P: SimPrefix>(ctx: &mut Ctx, cfg: &Cfg, real: &PrefixSet<P>,
         seq_check!(ctx, "C09", format!("set.cover({q})"), g, expk, f, c);
         let g = ctx.obs("C09", "set.get_spm", || real.get_spm(&p).map(|pp| pp.raw()))?;
         chk!(ctx, "C09", key_eq(g, chain.first().copied()), "set.get_spm", "set.get_spm({q}) = {:?}, expected {:?}", g, chain.first());
+        let g = ctx.obs("C09", "set.get_lpm", || real.get_lpm(&p).map(|pp| pp.raw()))?;
+        chk!(ctx, "C09", key_eq(g, chain.last().copied()), "lpm-is-last-of-cover:set.get_lpm", "set.get_lpm({q}) = {:?} but the cover chain ends with {:?}", g, chain.last());
     }
     Ok(())
 }
